@@ -213,6 +213,33 @@ def _conversions(ctx, e2e):
             ctx.violation("volumes:P(V(T,P))!=P", f"P(T,V(T,P)) misses P by {e3:.3g} grid steps of pressure", case_id, sample)
         if i % 2 == 0:
             recheck_after_writing(ctx, e2e, calc, cfg, wd, case_id, sample)
+        # ---- history: the same files with the same pressure grid and grid shape but another temperature grid, in the same process:
+        #      P(T,V) is different, so brackets and weights of the first conversion must not be reused
+        if i % 3 == 0:
+            import copy
+            cfg2 = copy.deepcopy(cfg)
+            q2 = cfg2["qha"]["settings"]
+            q2["T_MIN"] = float(q2["T_MIN"]) + float(q2["DT"]) * 0.5 + 37.0
+            path2 = WF.write_dataset(ds, cfg2, wd, settings_name="settings2.yaml")
+            calc2, exc2 = e2e.run(path2, case_id + "-shifted-T")
+            if exc2 is None:
+                vb2, pb2 = calc2.volume_base, calc2.pressure_base
+                P2 = numpy.asarray(vb2.pressures, float)
+                if numpy.all(numpy.diff(P2, axis=1) > 0):
+                    des2 = numpy.asarray(pb2.p_array, float)
+                    k0 = calc2.modulus_keys[0]
+                    for nm, got, f_tv in (("pressures(identity)", numpy.asarray(pb2.v2p(vb2.pressures)), P2),
+                                          ("modulus", numpy.asarray(pb2.modulus_isothermal[k0]), numpy.asarray(calc2.modulus_isothermal[k0])),
+                                          ("bulk_modulus_voigt", numpy.asarray(pb2.bulk_modulus_voigt), numpy.asarray(vb2.bulk_modulus_voigt))):
+                        with numpy.errstate(all="ignore"):
+                            ref, scale, _ = oracle_v2p(f_tv, P2, des2)
+                        fin = numpy.isfinite(ref)
+                        ctx.evaluation("history|second-calculation-same-pressure-grid", (i, nm))
+                        if fin.any() and not (numpy.abs(got - ref)[fin] / scale[fin]).max() <= TOL:
+                            ctx.violation(f"history:second-calculation:{nm.split('(')[0]}", f"second calculation in the process (same pressure grid, other T grid): {nm} is not the "
+                                          f"value at P(T,V)=P (max deviation {(numpy.abs(got - ref)[fin] / scale[fin]).max():.3g} of the local scale)", case_id, sample)
+            elif not (isinstance(exc2, ValueError) and "PRESSURE" in str(exc2).upper()):
+                e2e.report_construction_failure(exc2, case_id, "second-calculation", {"config": cfg2})
 
 
 def recheck_after_writing(ctx, e2e, calc, cfg, wd, case_id, sample):
